@@ -16,7 +16,8 @@ import (
 
 // Interpreter struct represents the execution context for evaluating expressions and statements.
 type Interpreter struct {
-	globals *environment.Environment
+	globals   *environment.Environment
+	callDepth int // user-function calls in progress (see maxCallDepth)
 }
 
 type ControlFlowSignal struct {
